@@ -276,6 +276,41 @@ def _map_strings(t, f):
     return t
 
 
+def _string_builder(t):
+    """a String assembled by unconditional pushes is the text of its pieces:  String::new() / String::from("..") / "..".to_string()
+    followed by push(c) / push_str(x)   ==   format!("..{}..", x)"""
+    init, effs = t[2], t[3]
+    parts = []
+    if init[0] == "call" and init[1] in ("String::new", "Default::default") and not init[2]:
+        pass
+    elif init[0] == "call" and init[1] in ("From::from", "ToString::to_string", "Into::into", "ToOwned::to_owned", "str::to_string", "str::to_owned") \
+            and len(init[2]) == 1 and init[2][0][0] == "lit" and isinstance(init[2][0][1], str):
+        parts.append(("lit", init[2][0][1]))
+    elif init[0] == "fmt":
+        parts.extend(init[1])
+    else:
+        return t
+    if not effs:
+        return t
+    for e in effs:
+        if not (e[0] == "mutcall" and e[1] in ("String::push", "String::push_str") and e[2] == "" and len(e[3]) == 1 and not e[-1]):
+            return t
+        x = e[3][0]
+        if x[0] == "lit" and isinstance(x[1], str):
+            parts.append(("lit", x[1]))
+        elif x[0] == "fmt":
+            parts.extend(x[1])
+        else:
+            parts.append(("arg", "", x))
+    merged = []
+    for p in parts:
+        if p[0] == "lit" and merged and merged[-1][0] == "lit":
+            merged[-1] = ("lit", merged[-1][1] + p[1])
+        else:
+            merged.append(p)
+    return ("fmt", merged)
+
+
 def _canon_match_free(scr, arms):
     return Norm._canon_match(_FREE, scr, arms)
 
@@ -1032,11 +1067,88 @@ class Norm:
             effs = sel
             if effs and (lid in self.mut or any(k in ("assign", "assignop") for _, k, _g in effs)):
                 et, inlined_any = self._effect_tuples(lid, effs)
+                et = self._join_effects(lid, et)
                 t = ("mut", pat.get("name", "?"), t, et) if inlined_any else self._canon_mut(lid, ("mut", pat.get("name", "?"), t, et), effs, origin)
+                if t[0] == "mut":
+                    t = _string_builder(t)
         finally:
             self._busy.discard(lid)
         self._memo[mkey] = t
         return t
+
+    def _collected(self, it, x, d):
+        """`for e in it { v.push(x) }` as a value: it.map(|e| x).collect()  (with `?` hoisted out of the closure)"""
+        hoist = False
+        if x[0] == "try":
+            x, hoist = x[1], True
+        elif _has_try(x):
+            x, hoist = ("call", "Ok", [x]), True
+        es = _show(("elem", it))
+
+        def sub(n):
+            if n[0] == "elem" and _show(n) == es:
+                return ("cparam", d, 0)
+            if n[0] == "cparam" and n[1] >= d:
+                return ("cparam", n[1] + 1, n[2])        # closures of the loop body end up one level deeper
+            if n[0] == "closure" and n[1] >= d:
+                return ("closure", n[1] + 1, n[2], n[3])
+            return None
+        r = ("call", "Iterator::collect", [("call", "Iterator::map", [it, ("closure", d, 1, rewrite(x, sub))])])
+        return ("try", r) if hoist else r
+
+    def _join_effects(self, lid, et):
+        """a separator loop over a String is one push of the joined pieces:
+             for x in it { s.push_str(f(x)); if <not the last one> { s.push(SEP) } }     (peekable `while let` loops arrive in this shape)
+             for (i, x) in it.enumerate() { if i > 0 { s.push(SEP) }  s.push_str(f(x)) }
+           ==  s.push_str(&it.map(f).collect::<Vec<_>>().join(SEP))
+           `if <not last> || C` with a loop-invariant C adds  `if C && !it.is_empty() { s.push(SEP) }`  after the joined text"""
+        depth = self.def_ctx.get(lid, (0, ()))[0]
+        d = depth + 1
+        PUSH = ("String::push", "String::push_str")
+
+        def is_push(e, guards_len):
+            return e[0] == "mutcall" and e[1] in PUSH and e[2] == "" and len(e[3]) == 1 and len(e[-1]) == guards_len
+
+        out, i = [], 0
+        while i < len(et):
+            a = et[i]
+            b = et[i + 1] if i + 1 < len(et) else None
+            done = False
+            if b is not None and is_push(a, 1) and is_push(b, 2) and a[-1][0][:2] == ("guard", "for") and b[-1][0] == a[-1][0] \
+                    and b[-1][1][:3] == ("guard", "if", True):
+                it = a[-1][0][2]
+                nl = _let("v1::Some($)", ("call", "loop::peek_next", [it]))
+                c = b[-1][1][3]
+                extra = None
+                if c[0] == "op" and c[1] == "||" and len(c[2]) == 2 and c[2][0] == nl and not any(x == ("elem", it) for x in subterms(c[2][1])):
+                    c, extra = nl, c[2][1]
+                if c == nl and not any(x[0] == "call" and x[1] == "loop::peek_next" for x in subterms(a[3][0])):
+                    out.append(("mutcall", "String::push_str", "", [("call", "slice::join", [self._collected(it, a[3][0], d), b[3][0]])], []))
+                    if extra is not None:
+                        nonempty = extra[0] == "op" and extra[1] == "==" and extra[2][0][0] == "call" and extra[2][0][1] == "slice::len" \
+                            and extra[2][1][0] == "lit" and str(extra[2][1][1]).isdigit() and int(extra[2][1][1]) >= 1
+                        cond = extra if nonempty else ("op", "&&", [extra, _not(("call", "slice::is_empty", [it]))])
+                        out.append(("mutcall", b[1], "", [b[3][0]], [("guard", "if", True, cond)]))
+                    i += 2
+                    done = True
+            if not done and b is not None and is_push(a, 2) and is_push(b, 1) and b[-1][0][:2] == ("guard", "for") and a[-1][0] == b[-1][0] \
+                    and a[-1][1][:3] == ("guard", "if", True):
+                en = b[-1][0][2]
+                if en[0] == "call" and en[1] == "Iterator::enumerate" and len(en[2]) == 1:
+                    it = en[2][0]
+                    idx = ("field", ("elem", en), "0")
+                    c = a[-1][1][3]
+                    first = c in (("op", ">=", [idx, ("lit", "1")]), ("op", "!=", [idx, ("lit", "0")]), ("op", ">", [idx, ("lit", "0")]))
+                    val = ("field", ("elem", en), "1")
+                    body = rewrite(b[3][0], lambda n: ("elem", it) if n == val else None)
+                    if first and not any(x == ("elem", en) for x in subterms(body)):
+                        out.append(("mutcall", "String::push_str", "", [("call", "slice::join", [self._collected(it, body, d), a[3][0]])], []))
+                        i += 2
+                        done = True
+            if not done:
+                out.append(a)
+                i += 1
+        return out
 
     def _effect_tuples(self, lid, effs):
         """the recorded effects on a local as effect tuples (guards relative to its declaration); helper calls taking it by
@@ -1918,6 +2030,19 @@ class Norm:
             recv = self._t(e["recv"])
             args = [self._t(a) for a in e["args"]]
             name = {"Vec::is_empty": "slice::is_empty", "Vec::len": "slice::len", "Vec::first": "slice::first", "Vec::last": "slice::last"}.get(name, name)
+            if not args and name in ("slice::len", "slice::is_empty"):
+                # length-preserving adaptors: xs.iter().map(f).collect::<Vec<_>>() has as many elements as xs
+                base = recv
+                while True:
+                    if base[0] == "try" and base[1][0] == "call" and base[1][1] == "Iterator::collect":
+                        base = base[1]
+                    elif base[0] == "call" and base[1] in ("Iterator::collect", "Iterator::cloned", "Iterator::copied", "Iterator::rev", "Iterator::enumerate") and len(base[2]) == 1:
+                        base = base[2][0]
+                    elif base[0] == "call" and base[1] == "Iterator::map" and len(base[2]) == 2:
+                        base = base[2][0]
+                    else:
+                        break
+                recv = base
             if not args and name in ("Option::is_some", "Option::is_none", "Result::is_ok", "Result::is_err"):
                 c = _let({"Option::is_some": "v1::Some($)", "Option::is_none": "v1::Some($)", "Result::is_ok": "v1::Ok($)", "Result::is_err": "v1::Err($)"}[name], recv)
                 return _not(c) if name == "Option::is_none" else c
